@@ -1,6 +1,7 @@
 package main
 
 import (
+	"sort"
 	"go/token"
 
 	"golang.org/x/tools/go/ssa"
@@ -17,6 +18,29 @@ func checkC12(p *Prog, r *Report) {
 	checkSetPermsPathsAs(p, r, "C12/MTIME-APPLIED-PATHS")
 	// the update rule compares with the sender's size, mtime and (under -c) checksum: they must be on the wire for every entry
 	checkEncoderCarries(p, r, "C12/WIRE-FIELDS", "the update rule's inputs are on the wire for every entry: for every (file type × option subset) the entry encoder emits exactly one record sequence with the entry's own length and mtime (never 'same as previous', whose reference entry differs between the ends for the first entry of a source argument or after an excluded entry) and the 16-byte whole-file checksum iff -c")
+	// the update rule's inputs are recomputed from the file system on every run
+	r.Rule("C12/NO-STALE-INPUTS", "size, mtime and (under -c) the whole-file checksum that enter the update rule are computed from the file system in this session: code reachable from the sender's file-list construction and from the receiver's generator references no process-wide mutable state (caches keyed by name/size/mtime survive a content change that keeps size and mtime) beyond the reviewed allow-table", 1)
+	{
+		g := p.ModGraph()
+		var entries []*ssa.Function
+		for _, a := range [][3]string{{pkgSender, "Transfer", "SendFileList"}, {pkgReceiver, "Transfer", "GenerateFiles"}, {pkgReceiver, "Transfer", "skipFile"}} {
+			if fn := p.Func(a[0], a[1], a[2]); fn != nil {
+				entries = append(entries, fn)
+			}
+		}
+		var scope []*ssa.Function
+		for fn := range g.Reach(entries, nil) {
+			if isModFunc(fn) && fn.Blocks != nil && !isTestSupport(pkgPathOfFunc(fn)) {
+				scope = append(scope, fn)
+			}
+		}
+		sort.Slice(scope, func(i, j int) bool { return funcKey(scope[i]) < funcKey(scope[j]) })
+		if len(entries) < 3 {
+			r.Unk("C12/NO-STALE-INPUTS", "entries", "-", "SendFileList / GenerateFiles / skipFile not found")
+		} else {
+			checkSharedStateUse(p, r, "C12/NO-STALE-INPUTS", scope)
+		}
+	}
 	r.Trust("time.Time.Truncate/Equal semantics; bytes.Equal")
 	r.Uncovered("that equal decision tables imply equal behaviour for all timestamps; repeat-sync idempotence end to end (needs C11: mtime applied after the rename)")
 }
